@@ -90,7 +90,7 @@ func (c *FnCtx) checkCopyWrite(st *types.Slice, d, n string, pos token.Pos) {
 }
 
 func (c *FnCtx) jsonLoad(term string, t types.Type, a *addr) {}
-func (c *FnCtx) jsonLoadMap(term string, tt *types.Map)       {}
+func (c *FnCtx) jsonLoadMap(term string, tt *types.Map)      {}
 
 // checkFrameAtReturn: the callee side of modifies. Every pre-existing object outside the
 // modifies clause has the state it had at entry. In frame-sweep mode functions without a
